@@ -343,7 +343,7 @@ type crashNode struct {
 	secretR  *rng
 	epochs   map[int]*epochInfo
 	lastEp   int
-	staged   *dkg.DBState // what SaveCurrent stored last (nil: nothing)
+	stagedAll []*dkg.DBState // every state SaveCurrent stored
 
 	dd       *core.DrandDaemon
 	bp       *core.BeaconProcess
@@ -663,8 +663,10 @@ func (n *crashNode) epochOfState(s *dkg.DBState) string {
 			return "E" + strconv.Itoa(e)
 		}
 	}
-	if n.staged != nil && n.sameState(s, n.staged) {
-		return fmt.Sprintf("staged%d:%s", s.Epoch, s.State.String())
+	for _, st := range n.stagedAll {
+		if n.sameState(s, st) {
+			return fmt.Sprintf("staged%d:%s", s.Epoch, s.State.String())
+		}
 	}
 	if s.State == dkg.Fresh && s.Epoch == 0 {
 		return "fresh"
@@ -1034,7 +1036,7 @@ func (n *crashNode) stagedOp(status string) string {
 	if err := n.dkgStore.SaveCurrent(n.beaconID, &next); err != nil {
 		return "err:" + err.Error()
 	}
-	n.staged = &next
+	n.stagedAll = append(n.stagedAll, &next)
 	after := readOpt(n.dkgFile())
 	tx := n.dkgStore.VerifTxID() - tx0
 	var parts []string
